@@ -362,6 +362,41 @@ pub fn run(a: &Args) {
             Tail::None => {},
         }
     }
+    // IS_SMALL (hand-written codec): the SMALL_ sub-type numbers and the LCL_ / LCS_ bit values inside UVal
+    if let (Some(small), Some(lcl), Some(lcs)) = (spec.tables.get("SMALL"), spec.tables.get("LCL"), spec.tables.get("LCS")) {
+        let mut probe = |subt: u64, uval: u64, what: String, want_variant: Option<(&Table, &Entry)>, want_flags: Option<(&Table, Vec<&Entry>)>, st: &mut Stats, obs: &mut Obs| {
+            for compressed in [true, false] {
+                let mut f = vec![if compressed { 2u8 } else { 8 }, 4, 0, subt as u8]; f.extend((uval as u32).to_le_bytes());
+                st.evaluations += 1;
+                let id = format!("{} {}", mode_tag(compressed), hex(&f));
+                match decode_buf(compressed, &f) {
+                    Dec::Got(p, _) => {
+                        let dbg = format!("{:?}", p);
+                        // Small(Small { reqi: RequestId(0), subt: Lcl(LclFlags(SET_SIGNALS | ...)) })
+                        let inner = dbg.split("subt: ").nth(1).unwrap_or("").to_string();
+                        let variant: String = inner.chars().take_while(|c| c.is_ascii_alphanumeric()).collect();
+                        if let Some((t, e)) = want_variant { obs.checked += 1; if !name_matches(t, e, &variant) { st.fail(format!("[C02 IS_SMALL] {what}: sub-type {subt} ({}{}) is read back as `{variant}`", t.prefix, e.name), id.clone()); } }
+                        if let Some((t, es)) = &want_flags {
+                            let shown: Vec<&str> = inner.split(|c| c == '(' || c == ')').nth(2).unwrap_or("").split('|').map(|x| x.trim()).filter(|x| !x.is_empty()).collect();
+                            obs.checked += 1;
+                            for e in es { if !shown.iter().any(|g| name_matches(t, e, g)) { st.fail(format!("[C02 IS_SMALL] {what}: bit value {} ({}{}) is not shown as set: `{}`", e.val, t.prefix, e.name, inner.chars().take(80).collect::<String>()), id.clone()); } }
+                            for g in &shown { if let Some(e) = t.entries.iter().find(|e| e.named && name_matches(t, e, g)) { if e.val & uval != e.val { st.fail(format!("[C02 IS_SMALL] {what}: `{g}` is shown but its bits {} are not set in UVal {uval:#x}", e.val), id.clone()); } } }
+                        }
+                        match encode_p(compressed, &p) { Enc::Ok(e) if e == f => {}, Enc::Ok(e) => st.fail(format!("[C02 IS_SMALL] {what}: re-encodes as {}", hex(&e)), id.clone()), _ => st.fail(format!("[C02 IS_SMALL] {what}: the decoded packet does not encode"), id.clone()) }
+                    },
+                    d => st.fail(format!("[C02 IS_SMALL] {what}: decoder outcome {}", crate::wire::cls_string(&d)), id.clone()),
+                }
+            }
+        };
+        for e in small.entries.iter().filter(|e| required(e)) { probe(e.val, if e.val == 0 { 0 } else { 1 }, format!("SMALL_{}", e.name), if e.named { Some((small, e)) } else { None }, None, &mut st, &mut obs); st.bump("vectors:IS_SMALL sub-type"); }
+        for (tname, t, subt) in [("LCL", lcl, 10u64), ("LCS", lcs, 9u64)] {
+            for e in t.entries.iter().filter(|e| required(e)) {
+                let named: Vec<&Entry> = if e.named { vec![e] } else { vec![] };
+                probe(subt, e.val, format!("{tname}_{} = {:#x}", e.name, e.val), None, Some((t, named)), &mut st, &mut obs);
+                st.bump("vectors:IS_SMALL light / switch bits");
+            }
+        }
+    }
     st.add("observations:value compared through the public fields", obs.checked);
     st.add("observations:field not observable through Debug (opaque types, addresses, unnamed enumerants)", obs.unobservable);
     st.rule = "reference frames built from the dumped specification transcription by a table-driven encoder: per packet type the all-default frame, every non-spare field set to each enumerant / single flag bit and all bits / boundary integers with distinct byte patterns / texts / times, arrays of 0..max elements with element fields varied, variable texts and word arrays, both size modes; each frame must decode to its own type, show the carried value under the implementation's field name, and re-encode byte for byte; distinct = distinct reference frames".into();
